@@ -363,7 +363,27 @@ SliceWalk(m, start, n) ==
         ELSE SliceWalk(m, t, n)
     ELSE n
 
-SliceLabels(m, start) == SliceWalk(m, start, 0)
+\* The repaired iterator also carries a budget of 255 octets (a name cannot
+\* be longer): a label that does not fit ends the iteration.  For walks
+\* without a pointer loop this gives an exact count; for a loop the property
+\* only asks for "finite".
+RECURSIVE SliceWalkB(_, _, _, _)
+SliceWalkB(m, start, n, budget) ==
+  IF start >= Len(m) THEN n
+  ELSE LET b == At(m, start) IN
+    IF b = 0 THEN (IF budget >= 1 THEN n + 1 ELSE n)
+    ELSE IF b <= 63 THEN
+      IF start + 1 + b > Len(m) \/ b + 1 > budget THEN n
+      ELSE SliceWalkB(m, start + 1 + b, n + 1, budget - (b + 1))
+    ELSE IF b >= 192 THEN
+      IF start + 1 >= Len(m) THEN n
+      ELSE LET t == (b - 192) * 256 + At(m, start + 1) IN
+        IF t >= start THEN n ELSE SliceWalkB(m, t, n, budget)
+    ELSE n
+
+SliceLabels(m, start) ==
+  LET raw == SliceWalk(m, start, 0) IN
+  IF raw < 0 \/ "D_slice_iter_loop" \in Dev THEN raw ELSE SliceWalkB(m, start, 0, 255)
 
 ---------------------------------------------------------------------------
 (* The projection compared with the implementation (S->I cases and I->S     *)
